@@ -87,6 +87,21 @@ fn main() {
         };
         let case = if v.get("case").is_some() { v["case"].clone() } else { v };
         let r = match id.as_str() {
+            _ if case["mode"] == serde_json::json!("hang") => {
+                // a call that did not return: run it again on its own thread and wait 30 s
+                let text = case["text"].as_str().unwrap_or("").to_string();
+                let (tx, rx) = std::sync::mpsc::channel();
+                std::thread::spawn(move || {
+                    let parts: Vec<&str> = text.split("\n(* next file *)\n").collect();
+                    let v = front::check_texts(&parts);
+                    let _ = front::tokenize(&text, "/w/replay.st");
+                    let _ = tx.send(v.0.short());
+                });
+                match rx.recv_timeout(std::time::Duration::from_secs(30)) {
+                    Ok(v) => Ok(format!("the call returns: {}", v)),
+                    Err(_) => Err("the call has not returned after 30 s".to_string()),
+                }
+            }
             "C01" => checks::c01::replay(&case),
             "C02" => checks::c02::replay(&case),
             "C03" => checks::c03::replay(&case),
@@ -121,6 +136,8 @@ fn main() {
     }
 
     let mut ctx = Ctx::new(&id, tier);
+    // a call into the implementation that does not return within 30 s is reported and ends the run
+    util::watch::start(id.clone(), if tier == Tier::Thorough { "thorough" } else { "quick" }, std::time::Duration::from_secs(30));
     match id.as_str() {
         "C01" => checks::c01::run(&mut ctx),
         "C02" => checks::c02::run(&mut ctx),
